@@ -533,3 +533,111 @@ func (g *Gen) HistoryHuge() []E {
 	evs = append(evs, E{"op": "Count", "c": c, "q": []interface{}{}, "audit": true})
 	return evs
 }
+
+// ---------------------------------------------------------------- same value, other type (C11)
+
+// retype returns v with every number in another Go representation of the same numeric value and
+// every time in another zone of the same instant (where the tables have one): a value that the
+// query order cannot tell from v but that the stored document must tell apart.
+func (g *Gen) retype(v V) V {
+	switch v[0] {
+	case "num":
+		reps := g.U.Reps(toInt(v[1]))
+		var other []string
+		for _, r := range reps {
+			if r != v[2].(string) {
+				other = append(other, r)
+			}
+		}
+		if len(other) == 0 {
+			return v
+		}
+		return ANum(toInt(v[1]), other[g.r.Intn(len(other))])
+	case "time":
+		z := (toInt(v[2]) + 1 + g.r.Intn(genZones-1)) % genZones
+		return ATime(toInt(v[1]), z)
+	case "arr":
+		var el []V
+		for _, e := range toList(v[1]) {
+			el = append(el, g.retype(toV(e)))
+		}
+		return AArr(el...)
+	case "obj":
+		out := V{"obj", []interface{}{}}
+		for _, kv := range toList(v[1]) {
+			p := toList(kv)
+			k := string(toBytes(p[0]))
+			val := toV(p[1])
+			if k != "_id" {
+				val = g.retype(val)
+			}
+			out = ObjSet(out, k, val)
+		}
+		return out
+	}
+	return v
+}
+
+// HistoryRetype stores documents and then rewrites each of them, by every operation that can, with
+// the same values in other Go types and zones; what is read back afterwards must be the rewritten
+// document exactly.
+func (g *Gen) HistoryRetype() []E {
+	c := g.colls[0]
+	evs := []E{{"op": "CreateCollection", "c": c}}
+	g.created[c] = true
+	g.live[c] = map[string]bool{}
+	g.idx[c] = map[string]bool{}
+	if g.chance(0.5) {
+		evs = append(evs, E{"op": "CreateIndex", "c": c, "f": B(g.pick([]string{"x", "t", "n.a"}))})
+	}
+	n := 3 + g.r.Intn(4)
+	docs := map[string]V{}
+	var ids []string
+	var batch []interface{}
+	for i := 0; i < n && i < len(g.ids); i++ {
+		id := g.ids[i]
+		d := g.doc(AStr(id))
+		d = ObjSet(d, "x", g.smallNum())
+		d = ObjSet(d, "t", g.tim())
+		docs[id] = d
+		ids = append(ids, id)
+		batch = append(batch, d)
+	}
+	evs = append(evs, E{"op": "Insert", "c": c, "docs": batch})
+	g.noteInsert(c, ids...)
+	for round := 0; round < 2; round++ {
+		for _, id := range ids {
+			nd := g.retype(docs[id])
+			switch g.r.Intn(5) {
+			case 0:
+				evs = append(evs, E{"op": "ReplaceById", "c": c, "id": B(id), "docs": []interface{}{nd}})
+			case 1:
+				evs = append(evs, E{"op": "Save", "c": c, "docs": []interface{}{nd}})
+			case 2, 3:
+				f := g.pick([]string{"x", "t"})
+				fv, _ := ObjGet(nd, f)
+				old := docs[id]
+				nd = ObjSet(old, f, fv)
+				kind := "set"
+				if g.chance(0.5) {
+					kind = "setInPlace"
+				}
+				evs = append(evs, E{"op": "UpdateById", "c": c, "id": B(id), "upd": []interface{}{kind, B(f), fv}})
+			default:
+				f := g.pick([]string{"x", "t"})
+				fv, _ := ObjGet(nd, f)
+				old := docs[id]
+				nd = ObjSet(old, f, fv)
+				q := []interface{}{[]interface{}{"where", []interface{}{"un", "eq", B("_id"), []interface{}{"lit", AStr(id)}}}}
+				evs = append(evs, E{"op": "UpdateFunc", "c": c, "q": q, "upd": []interface{}{"set", B(f), fv}})
+			}
+			docs[id] = nd
+			evs = append(evs, E{"op": "FindById", "c": c, "id": B(id)})
+		}
+		evs = append(evs, E{"op": "FindAll", "c": c, "q": []interface{}{}})
+		if g.P.Name == "retypereopen" {
+			evs = append(evs, E{"op": "Reopen", "audit": true})
+		}
+	}
+	return evs
+}
